@@ -143,11 +143,17 @@ extern struct Mutex *g_dmutex;     /* the mutex of the dispatcher under proof (g
 /* ------------------------------------------------------------------ C12: the filters (mixin chain) = boundary `forEach`
  * requires: called with no dispatcher mutex held (filters are user code), on the dispatcher itself, with the
  * arguments as lvalues; they may modify the arguments; false = stop this dispatch */
+/* filters are user code: one of them may register the FIRST listener of an event (appendListener on the dispatcher it
+ * filters), which creates that event's list; nothing ever erases a list.  So across the chain the witness entry may
+ * appear (an existing one stays what it is) */
 #define CONTRACT_forEach \
   __CPROVER_requires((*args)->listenerMutex.depth == 0 && __CPROVER_is_fresh(args_2, sizeof(VArg))) \
   __CPROVER_assigns(args_2->id, g_mix_n, g_mix_ret, g_mix_postid, g_mix_self, g_mix_seq, g_seq) \
+  __CPROVER_assigns(!(*args)->eventCallbackListMap.has: (*args)->eventCallbackListMap.has, (*args)->eventCallbackListMap.w) \
   __CPROVER_ensures(B01(g_mix_ret) && g_mix_n == __CPROVER_old(g_mix_n) + 1 && __CPROVER_return_value == g_mix_ret && g_mix_postid == args_2->id && g_mix_self == (void *)*args && \
-                    g_seq == __CPROVER_old(g_seq) + 1 && g_mix_seq == g_seq)
+                    g_seq == __CPROVER_old(g_seq) + 1 && g_mix_seq == g_seq) \
+  __CPROVER_ensures(B01((*args)->eventCallbackListMap.has) && (__CPROVER_old((*args)->eventCallbackListMap.has) ==> (*args)->eventCallbackListMap.has) && \
+                    ((*args)->eventCallbackListMap.has ==> (*args)->eventCallbackListMap.w.first == g_K))
 /* the chain itself (obligation with -DOB_CHAIN): ForEachMixins::forEach -> DoMixinBeforeDispatch::forEach<MixinFilter> ->
  * MixinFilter::mixinBeforeDispatch on the dispatcher object itself with the caller's argument objects, its verdict returned */
 #ifdef OB_CHAIN
@@ -195,7 +201,7 @@ extern int g_cb_n; extern VArg *g_cb_arg; extern _Bool g_cb_ret; extern Callback
  * (no list is invoked); otherwise exactly the list registered for *e is invoked, once, with the argument values as the
  * filters left them, with no mutex held; if the event has no list nothing is invoked */
 #define DD_POST(MIXED) \
-  __CPROVER_ensures(ED_OK(self) && HAS(self) == __CPROVER_old(HAS(self))) \
+  __CPROVER_ensures(ED_OK(self) && ((MIXED) ? (__CPROVER_old(HAS(self)) ==> HAS(self)) : HAS(self) == __CPROVER_old(HAS(self)))) \
   __CPROVER_ensures(g_dd_n == __CPROVER_old(g_dd_n) + 1 && g_dd_key == __CPROVER_old(*e) && g_dd_arg == __CPROVER_old(args.id)) \
   __CPROVER_ensures((MIXED) ==> (g_mix_n == __CPROVER_old(g_mix_n) + 1 && g_mix_self == (void *)self)) \
   __CPROVER_ensures(((MIXED) && !g_mix_ret) ==> g_n == __CPROVER_old(g_n)) \
